@@ -18,6 +18,13 @@
 // only at: thread spawn (a real `go`, as in the program), thread end -> controller (exitCh), and
 // execution end -> controller (doneCh); they order "this execution -> next execution", never two
 // threads of one execution.
+//
+// Two lessons built in: (1) nothing that runs inside a managed thread on behalf of the engine may
+// use fmt or any other sync.Pool client (the detector turns a Pool hand-over into a happens-before
+// edge, randomly dropped 1 in 4: tracing used to hide races from it at random) - traces record
+// program counters only and are formatted by the controller; (2) a thread whose function has
+// returned stays alive (linger) until the execution is collected, so that the detector keeps the
+// access history of every thread of the execution.
 package vsync
 
 import (
@@ -144,8 +151,9 @@ type sched struct {
 	trace   []Step
 	probe   func()
 
-	exitCh chan int
-	doneCh chan struct{}
+	exitCh   chan int
+	doneCh   chan struct{}
+	lingerCh chan struct{}
 }
 
 //go:norace
@@ -153,6 +161,7 @@ func newSched(prefix []int, expect []Point, horizon int, tracing bool) *sched {
 	s := &sched{prefix: prefix, expect: expect, horizon: horizon, tracing: tracing, hash: 1469598103934665603}
 	s.exitCh = make(chan int, 64)
 	s.doneCh = make(chan struct{}, 4)
+	s.lingerCh = make(chan struct{})
 	return s
 }
 
@@ -420,12 +429,9 @@ func (t *thread) main(f func()) {
 	t.linger()
 }
 
-//go:norace
-func (t *thread) linger() {
-	for !t.abandon {
-		runtime.Gosched()
-	}
-}
+// linger blocks (no spinning) until the controller collects the execution. The close of lingerCh
+// is a real edge controller -> this goroutine's tail, after its last operation: it orders nothing.
+func (t *thread) linger() { <-t.s.lingerCh }
 
 func trimStack(b []byte) string {
 	lines := strings.Split(string(b), "\n")
